@@ -243,4 +243,46 @@ theorem relativize_size_idempotent (s z : Size) (dim dim' : Nat) (hor : Bool) (h
 example : (({ origin := some ⟨⟨64, .px⟩, ⟨36, .px⟩⟩, extent := some ⟨⟨2, .c⟩, ⟨1, .em⟩⟩, padding := none, alignment := none,
               webvtt := none } : Layout).asPct 640 360).toOption.isSome = true := by
   rw [relativize_layout_exact _ _ _ (by decide) (by decide)]; rfl
+theorem pct_size_fixed (z : Size) (hu : z.unit = .pct) (dim : Nat) (hor : Bool) : z.asPct dim hor = .ok z := by
+  obtain ⟨v, u⟩ := z
+  simp only at hu; subst hu
+  simp [Size.asPct]
+
+/-- **C13 (relativizing twice).** a relativized layout is a fixed point of relativization, with or without video
+    dimensions: a second pass neither changes a value nor raises -/
+theorem relativize_layout_idempotent (l l' : Layout) (w h w' h' : Nat) (hl : l.asPct w h = .ok l') :
+    l'.asPct w' h' = .ok l' := by
+  have ho := relativized_origin_is_percent l l' w h hl
+  have he := relativized_extent_is_percent l l' w h hl
+  have hp := relativized_padding_is_percent l l' w h hl
+  have hw : l'.webvtt = none := by
+    unfold Layout.asPct at hl
+    split at hl
+    · simp at hl
+    · split at hl
+      · simp at hl
+      · split at hl
+        · simp at hl
+        · simp only [Except.ok.injEq] at hl; subst hl; rfl
+  obtain ⟨o, e, p, a, v⟩ := l'
+  simp only at hw; subst hw
+  have e1 : optAsPct Point.asPct o w' h' = .ok o := by
+    cases o with
+    | none => rfl
+    | some o =>
+      have := ho o rfl
+      simp [optAsPct, Point.asPct, pct_size_fixed _ this.1, pct_size_fixed _ this.2]
+  have e2 : optAsPct Stretch.asPct e w' h' = .ok e := by
+    cases e with
+    | none => rfl
+    | some e =>
+      have := he e rfl
+      simp [optAsPct, Stretch.asPct, pct_size_fixed _ this.1, pct_size_fixed _ this.2]
+  have e3 : optAsPct Padding.asPct p w' h' = .ok p := by
+    cases p with
+    | none => rfl
+    | some p =>
+      have := hp p rfl
+      simp [optAsPct, Padding.asPct, pct_size_fixed _ this.1, pct_size_fixed _ this.2.1, pct_size_fixed _ this.2.2.1, pct_size_fixed _ this.2.2.2]
+  simp [Layout.asPct, e1, e2, e3]
 end PcVerif.Props.C13
